@@ -91,6 +91,37 @@ func purgeObligation(c *Ctx, rule, key string) {
 	}
 }
 
+// fromSortedLast: src is an element of the result of a module function that received the
+// last-validator map and sorts (calls sort.*) - whatever that helper is called or
+// whichever receiver / parameters it has.
+func fromSortedLast(c *Ctx, src *Term, lastM string) bool {
+	ok := false
+	src.Walk(func(x *Term) bool {
+		if ok || x.Op != "call" || !strings.Contains(x.Name, "opchild/keeper") {
+			return !ok
+		}
+		takesLast := false
+		for _, a := range x.Args {
+			if a.Key() == lastM {
+				takesLast = true
+			}
+		}
+		if !takesLast {
+			return true
+		}
+		for _, f := range c.W.Funcs {
+			if funcName(f) == x.Name || fnShort(f) == x.Name {
+				for _, st := range c.W.BuildEffects().ReachSites(f, func(s *Site) bool { return s.Kind == SStatic && strings.HasPrefix(s.Callee, "sort.") }) {
+					_ = st
+					ok = true
+				}
+			}
+		}
+		return !ok
+	})
+	return ok
+}
+
 func propC13(c *Ctx) {
 	c.Clauses = append(c.Clauses,
 		"writers of Validators / ValidatorsByConsAddr / LastValidatorPowers are exactly the tabled helpers",
@@ -364,7 +395,7 @@ func propC13(c *Ctx) {
 					}
 					// the looked-up address comes from the sorted no-longer-bonded slice
 					src := strip(v.Args[2])
-					if !(src.Op == "convert" || src.Op == "index") || !strings.Contains(src.Key(), "opchild/keeper.sortNoLongerBonded("+lastM+", k.validatorAddressCodec).0[") {
+					if !(src.Op == "convert" || src.Op == "index") || !fromSortedLast(c, src, lastM) {
 						o.Fail(c.W.Pos(fn.Pos()), "removed validator is looked up from "+trunc(src.Key(), 140)+", not from the sorted no-longer-bonded slice", c.Dump(p, -1))
 					}
 					rm := p.Find(func(e2 *Event) bool {
